@@ -496,3 +496,12 @@ Section RealCodec.
       rewrite (decode_kinded_encode [tt] (fun _ => tx "Net") tt c s eq_refl Hs). reflexivity.
   Qed.
 End RealCodec.
+
+(* ---------------------------------------------------------------- the known finding C11/empty-entrypoint *)
+
+Lemma empty_entrypoint_changes C lam :
+  let v := VAddr (KT1, repeat x00 20) (Some []) in
+  of_mich C lam TAddress (to_mich C Optimized v) = Ok (VAddr (KT1, repeat x00 20) None) /\
+  of_mich C lam TAddress (to_mich C LegacyOptimized v) = Ok (VAddr (KT1, repeat x00 20) None) /\
+  has_type lam TAddress v = false.
+Proof. repeat split; vm_compute; reflexivity. Qed.
